@@ -154,6 +154,18 @@ def d2_quad(ctx):
     else:
         vals = [const(e) for e in bs[0].value.elts]
         ctx.check(rule, key, vals == [-1, 1], 'd/da = -f(a), d/db = +f(b)', 'sign table is %s for bounds [a, b]' % vals, m.loc(bs[0]))
+    # options for scipy.integrate.quad: every option the caller gives is forwarded as given (also falsy values such as epsabs=0)
+    ik = find_def(f, 'ikwargs')
+    if len(ik) == 1:
+        try:
+            kw_ = {'epsabs': 0, 'limit': 50, 'epsrel': 0.0, 'foreign': 1, 'full_output': False}
+            pars_ = ('epsabs', 'epsrel', 'limit', 'full_output', 'points')
+            got_ = eval(compile(ast.Expression(body=ik[0].value), '<ikwargs>', 'eval'), {'__builtins__': {'dict': dict, 'len': len}, 'intpars': pars_, 'kwargs': dict(kw_)})
+            want_ = {k_: kw_[k_] for k_ in pars_ if k_ in kw_}
+            ctx.check(rule, 'integrate.py:quad#options-forwarded', got_ == want_, 'the options of the caller that scipy.integrate.quad knows are forwarded as given',
+                      'for the options %s the integrator receives %s: options with a false value (epsabs=0: purely relative tolerance) are dropped and scipy falls back to its defaults' % (kw_, got_), m.loc(ik[0]))
+        except Exception as ex_:
+            ctx.unrec(rule, 'integrate.py:quad#options-forwarded', 'cannot evaluate %s: %r' % (unparse(ik[0].value), ex_), m.loc(ik[0]))
     # the list of derivative integrals / boundary terms starts empty and only grows by the terms checked below: a branch that fills it with
     # constants (e.g. zeros 'because the range is empty') drops the boundary terms, which do not vanish for equal limits
     dass = [s_ for s_ in statements(f) if isinstance(s_, ast.Assign) and any(unparse(t_) == 'derivint' for t_ in s_.targets)]
